@@ -198,6 +198,15 @@ type Outer struct {
 	Low  []int  `json:"Tag"`
 }
 
+// embedded fields that are not plain structs: a pointer to a struct, a named basic type, an
+// interface (each is an exported field named after its type)
+type Emb struct {
+	*Inner
+	NInt
+	E0
+	X []*Inner
+}
+
 // a struct type that can marshal itself but not unmarshal itself: it has no JSON form of its
 // own that could be read back, the serialiser has to write it field by field
 type OnlyM struct {
@@ -235,7 +244,7 @@ var fixedStructs = []struct {
 	rt  reflect.Type
 	reg bool
 }{{reflect.TypeOf(Empty{}), true}, {reflect.TypeOf(Node{}), true}, {reflect.TypeOf(Unreg{}), false}, {reflect.TypeOf(Rec{}), true},
-	{reflect.TypeOf(Holder{}), true}, {reflect.TypeOf(Inner{}), true}, {reflect.TypeOf(Outer{}), true}, {reflect.TypeOf(KS{}), true}, {reflect.TypeOf(OnlyM{}), true}, {reflect.TypeOf(KT{}), true}, {reflect.TypeOf(KO{}), true}}
+	{reflect.TypeOf(Holder{}), true}, {reflect.TypeOf(Inner{}), true}, {reflect.TypeOf(Outer{}), true}, {reflect.TypeOf(KS{}), true}, {reflect.TypeOf(OnlyM{}), true}, {reflect.TypeOf(KT{}), true}, {reflect.TypeOf(KO{}), true}, {reflect.TypeOf(Emb{}), true}}
 
 // container types registered under a name (so that they may be element types)
 var regContainers = []struct {
@@ -294,6 +303,7 @@ func init() {
 	must(compose.RegisterSerializableType[OnlyM]("c12_s1008"))
 	must(compose.RegisterSerializableType[KT]("c12_s1009"))
 	must(compose.RegisterSerializableType[KO]("c12_s1010"))
+	must(compose.RegisterSerializableType[Emb]("c12_s1011"))
 	must(compose.RegisterSerializableType[NLvl]("c12_n10"))
 	must(compose.RegisterSerializableType[NTk]("c12_n11"))
 	must(compose.RegisterSerializableType[alt.NInt]("c12_n12"))
@@ -1170,7 +1180,7 @@ type Case struct {
 	Structs   []SDecl  `json:"structs,omitempty"`
 	TopNil    bool     `json:"topnil,omitempty"` // Marshal(nil)
 	Probe     string   `json:"probe,omitempty"`  // registry probe: "dup-key" | "dup-type" (GenericRegister must refuse)
-	BB        int      `json:"bb,omitempty"`     // black-box companion: 1 = Pregel graph, 2 = DAG graph, 3 = DAG fan-in, 4..6 = the same through Stream (see runBB)
+	BB        int      `json:"bb,omitempty"`     // black-box companion: 1 = Pregel graph, 2 = DAG graph, 3 = DAG fan-in, 4..6 = the same through Stream, 7..10 = the value itself as pending input of type any, 11..14 = a nil pending input (see runBB)
 	T         *Ty      `json:"t,omitempty"`
 	V         *V       `json:"v,omitempty"`
 	Malformed []string `json:"malformed,omitempty"` // why the value is not in the supported universe
@@ -1385,6 +1395,19 @@ func (s *memStore) Set(_ context.Context, id string, b []byte) error {
 // Returns the restored state (what the model is compared with) and the other restored copies.
 func runBB(mode int, val any) (state any, copies []any, bytes int, phase string, err error) {
 	ctx := context.Background()
+	// modes 7..14: the value itself (not a map holding it) is node a's output and node b's pending
+	// input, both of type any (7..10), and the same with node a returning nil, so that the pending
+	// input is a nil interface (11..14); each for Pregel / DAG through Invoke, then through Stream
+	plumb := 0
+	if mode > 6 {
+		k := mode - 7
+		plumb = 1 + k/4
+		k %= 4
+		mode = 1 + k%2
+		if k >= 2 {
+			mode += 3
+		}
+	}
 	stream := mode > 3 // modes 4..6: the same graphs run through Stream (the checkpoint is
 	// converted from / restored to streams: convertCheckPoint / restoreCheckPoint)
 	if stream {
@@ -1396,21 +1419,44 @@ func runBB(mode int, val any) (state any, copies []any, bytes int, phase string,
 		return &Holder{}
 	}))
 	var bInput map[string]any
-	if err = g.AddLambdaNode("a", compose.InvokableLambda(func(ctx context.Context, in map[string]any) (map[string]any, error) {
-		e := compose.ProcessState[*Holder](ctx, func(_ context.Context, h *Holder) error {
+	var bDirect any
+	bCalled := false
+	setState := func(ctx context.Context) error {
+		return compose.ProcessState[*Holder](ctx, func(_ context.Context, h *Holder) error {
 			h.V = val
 			h.M = map[string]any{"v": val}
 			return nil
 		})
-		return map[string]any{"v": val, "x": in["x"]}, e
-	})); err != nil {
-		return nil, nil, 0, "build", err
 	}
-	if err = g.AddLambdaNode("b", compose.InvokableLambda(func(ctx context.Context, in map[string]any) (*Holder, error) {
-		bInput = in
-		return &Holder{V: in["v"], M: in}, nil
-	})); err != nil {
-		return nil, nil, 0, "build", err
+	if plumb == 0 {
+		if err = g.AddLambdaNode("a", compose.InvokableLambda(func(ctx context.Context, in map[string]any) (map[string]any, error) {
+			e := setState(ctx)
+			return map[string]any{"v": val, "x": in["x"]}, e
+		})); err != nil {
+			return nil, nil, 0, "build", err
+		}
+		if err = g.AddLambdaNode("b", compose.InvokableLambda(func(ctx context.Context, in map[string]any) (*Holder, error) {
+			bInput, bCalled = in, true
+			return &Holder{V: in["v"], M: in}, nil
+		})); err != nil {
+			return nil, nil, 0, "build", err
+		}
+	} else {
+		if err = g.AddLambdaNode("a", compose.InvokableLambda(func(ctx context.Context, in map[string]any) (any, error) {
+			e := setState(ctx)
+			if plumb == 2 {
+				return nil, e
+			}
+			return val, e
+		})); err != nil {
+			return nil, nil, 0, "build", err
+		}
+		if err = g.AddLambdaNode("b", compose.InvokableLambda(func(ctx context.Context, in any) (*Holder, error) {
+			bDirect, bCalled = in, true
+			return &Holder{V: in, M: map[string]any{"x": "in"}}, nil
+		})); err != nil {
+			return nil, nil, 0, "build", err
+		}
 	}
 	edges := [][2]string{{compose.START, "a"}, {"a", "b"}, {"b", compose.END}}
 	st := &memStore{m: map[string][]byte{}}
@@ -1484,10 +1530,23 @@ func runBB(mode int, val any) (state any, copies []any, bytes int, phase string,
 	if err != nil {
 		return nil, nil, bytes, "resume", err
 	}
-	if bInput == nil || out == nil || bInput["x"] != "in" || out.M["x"] != "in" {
-		return state, nil, bytes, "resume", fmt.Errorf("node b did not receive the pending input: %v / %v", bInput, out)
+	switch plumb {
+	case 0:
+		if bInput == nil || out == nil || bInput["x"] != "in" || out.M["x"] != "in" {
+			return state, nil, bytes, "resume", fmt.Errorf("node b did not receive the pending input: %v / %v", bInput, out)
+		}
+		return state, []any{bInput["v"], out.V}, bytes, "", nil
+	case 1:
+		if !bCalled || out == nil {
+			return state, nil, bytes, "resume", fmt.Errorf("node b did not run on the pending input: %v", out)
+		}
+		return state, []any{bDirect, out.V}, bytes, "", nil
+	default:
+		if !bCalled || out == nil || bDirect != nil || out.V != nil {
+			return state, nil, bytes, "resume", fmt.Errorf("node b did not receive the nil pending input: called=%v input=%v out=%v", bCalled, bDirect, out)
+		}
+		return state, nil, bytes, "", nil
 	}
-	return state, []any{bInput["v"], out.V}, bytes, "", nil
 }
 
 type probeFresh int
@@ -1978,7 +2037,7 @@ func (g *gen) structType(depth int) *Ty {
 	r := g.r
 	switch {
 	case r.Chance(1, 6):
-		return &Ty{K: "struct", N: fixedBase + []int{0, 1, 1, 3, 5, 6, 6, 7, 8}[r.Intn(9)]}
+		return &Ty{K: "struct", N: fixedBase + []int{0, 1, 1, 3, 5, 6, 6, 7, 8, 11, 11}[r.Intn(11)]}
 	case g.want("unregistered-struct", 1, 5):
 		g.bad("unregistered-struct")
 		return &Ty{K: "struct", N: fixedBase + 2}
@@ -2665,7 +2724,7 @@ func genCase(r *lib.Rng, tier string, i int) *Case {
 	}
 	sort.Strings(c.Malformed)
 	if len(c.Malformed) == 0 && i%6 == 2 {
-		c.BB = 1 + (i/6)%6 // through a real graph: interrupt, store, resume
+		c.BB = 1 + (i/6)%14 // through a real graph: interrupt, store, resume (see runBB)
 	}
 	return c
 }
